@@ -310,7 +310,11 @@ CLAIMED = {
              'PyLit.literal_value; the splitter (exact model of the generator loop incl. re.split) concatenates back '
              'to the value, yields no empty piece, and terminates for every positive max_len within 6 len+16 '
              'iterations (it diverges for max_len = 0: witness); at every indent/column/page/ribbon and each of the '
-             'four strategies + subclass wrapper the evaluator returns >= 1 pieces concatenating to the value. Tied '
+             'four strategies + subclass wrapper the evaluator returns >= 1 pieces concatenating to the value; '
+             'C02_layout_text (Proofs/StrLayout.v): in EVERY layout of that document, inside any layout of any '
+             'enclosing document, the emitted text minus line breaks and indentation is exactly the literal pieces in '
+             'order, possibly inside one pair of parentheses or Name( ... ) (the escape runs of highlight_escapes '
+             'partition the escaped text). Tied '
              'to the code by comparing determine_quote_strategy / escape_str_for_quote / str_to_lines and pformat in '
              '6 placements with the extracted model; literal_value is validated against ast.literal_eval.',
         design='5.2 C02', technique='Coq proofs (invariants of the splitter loop, chunk-wise analysis of str.replace, hex round trip) + differential correspondence',
